@@ -13,6 +13,10 @@ pub struct Extra(pub u32);
 
 pub struct Speed(pub u32);
 
+pub struct Outside(pub u32);
+
+pub struct Linked(pub u32);
+
 pub struct Token(pub String);
 
 #[derive(Debug)]
